@@ -22,6 +22,9 @@ read from the real objects before and after; nothing is recomputed with antismas
 Cases whose input has a feature under which a clause is known to fail on the pinned tree (see
 `input_tags`, RELEVANT) are reported under the clause name '<clause>@<tag+tag>', all others under the
 bare clause name; FINDING_CLASSES only ever match the '@' names.
+
+A case is the spec itself plus "tags" (the input description, recomputed on replay); a stored witness
+may carry "only": [clauses] to restrict what `replay` reports to the clauses it is a witness for.
 """
 from __future__ import annotations
 
@@ -211,7 +214,7 @@ def evaluate(spec: dict) -> tuple[list[tuple[str, bool, str]], dict]:
 
     results: list[tuple[str, bool, str]] = []
     info: dict[str, Any] = {"built": False, "nontrivial": False, "tags": []}
-    clean = {k: v for k, v in spec.items() if k != "tags"}
+    clean = {k: v for k, v in spec.items() if k not in ("tags", "only")}
     try:
         record = factory.build(clean)
     except Exception as err:  # pylint: disable=broad-except
@@ -387,10 +390,16 @@ def run_shard(shard: dict, run: Any) -> None:
 
 
 def replay(case: dict) -> list[str]:
+    import logging
+    logging.disable(logging.CRITICAL)
     results, info = evaluate(case)
     if not info["built"]:
         return [f"factory could not build the record: {info.get('build_error')}"]
-    return [f"{qualified(clause, info['tags'])}: {detail}" for clause, ok, detail in results if not ok]
+    # a stored witness may name the clauses it is a witness for ("only": ["gbk-CDS", ...]); other
+    # clauses (possibly failing for another known reason on the same record) are then not reported
+    only = case.get("only")
+    return [f"{qualified(clause, info['tags'])}: {detail}" for clause, ok, detail in results
+            if not ok and (not only or clause in only)]
 
 
 def _known(clause: str, case: Any, aspects_: tuple, tags: tuple) -> bool:
